@@ -9,6 +9,7 @@ import Djc.Proofs.Plain
 import Djc.Proofs.Calm
 import Djc.Proofs.Leaf
 import Djc.Proofs.Tree
+import Djc.Proofs.TreeFail
 namespace Djc.Props.C06
 open Djc.Tpl Djc.Render Djc.Proofs.Render
 
@@ -176,6 +177,50 @@ example : Djc.Proofs.Tree.WInv ({} : World) ∧ Djc.Proofs.Plain.ctxFree Djc.Pro
     Djc.Proofs.Tree.exSummary false = true ∧ Djc.Proofs.Tree.exSummary true = true :=
   ⟨Djc.Proofs.Tree.empty_world_inv, by decide +kernel, by decide +kernel, by decide +kernel, by decide +kernel,
     by decide +kernel, by decide +kernel⟩
+
+/-- **A failing render of a tree of components disturbs nothing that was there before** (`Djc/Proofs/TreeFail.lean`).
+Same fragment and hypotheses as above; the render *raises* — a callback with fault injection anywhere in the tree
+(`get_context_data`, `on_render_before`, `on_render_after` of any instance, at any depth, at any index), `NotRegistered`,
+the instance or work budget, fuel.  Then every entry the three registries held before (ids generated earlier) is
+untouched, the provide registries and the fill-capture list are untouched, the id counter did not go back, and nothing is
+registered under an id not generated yet: the residue of the failure — the listed finding
+`error-leaves-registry-entries` — lies entirely under ids of the failed render. -/
+theorem C06_full_partial_failed_tree_render_disturbs_nothing_older (env : Env) (hlib : Djc.Proofs.Tree.GoodLib env) (fuel : Nat)
+    (name : Str) (kwargs : List (Str × Expr)) (only dyn : Bool) (ctx : Ctx) (w w' : World) (e : Err)
+    (hd : isDynName name = false) (hc : Djc.Proofs.Plain.ctxFree ctx = true) (hw : Djc.Proofs.Tree.WInv w)
+    (h : (renderCompTag env fuel name kwargs only dyn [] ctx).run.run w = (.error e, w')) :
+    w.nextId ≤ w'.nextId ∧
+      (∀ k, k < w.nextId → alGet k w'.ctxCache = alGet k w.ctxCache ∧ alGet k w'.rendererCache = alGet k w.rendererCache ∧
+        alGet k w'.childAttrs = alGet k w.childAttrs) ∧
+      (∀ k, w'.nextId ≤ k → alGet k w'.ctxCache = none ∧ alGet k w'.rendererCache = none ∧ alGet k w'.childAttrs = none) ∧
+      w'.provideCache = w.provideCache ∧ w'.provideRefs = w.provideRefs ∧ w'.allRefIds = w.allRefIds ∧ w'.cap = w.cap := by
+  have hf := Djc.Proofs.TreeFail.tree_failure_frame env hlib fuel name kwargs only dyn ctx w w' e hd hc hw h
+  exact ⟨hf.next, fun k hk => ⟨hf.cc k hk, hf.rc k hk, hf.ca k hk⟩, fun k hk => ⟨hf.hcc k hk, hf.hrc k hk, hf.hca k hk⟩,
+    hf.prov.1, hf.prov.2.1, hf.prov.2.2.1, hf.prov.2.2.2⟩
+
+/-- **Every later render behaves as if the failed one had never happened — as far as the registries go.**  After a render
+of the fragment failed (world `w1`), a later render of any tree of the fragment that returns, leaves the registries
+exactly as the failure left them (nothing added, nothing of the residue touched) and returns tokens without
+placeholders: the residue neither grows nor leaks into the later page.  (That its *output* is that of a fresh process up
+to the numbering of ids is decided per program by the correspondence, stream `faults`.) -/
+theorem C06_full_partial_render_after_failed_render (env : Env) (hlib : Djc.Proofs.Tree.GoodLib env) (fuel fuel2 : Nat)
+    (name name2 : Str) (kwargs kwargs2 : List (Str × Expr)) (only dyn only2 dyn2 : Bool) (ctx ctx2 : Ctx) (w w1 w2 : World)
+    (e : Err) (toks : List Tok)
+    (hd : isDynName name = false) (hc : Djc.Proofs.Plain.ctxFree ctx = true) (hw : Djc.Proofs.Tree.WInv w)
+    (h : (renderCompTag env fuel name kwargs only dyn [] ctx).run.run w = (.error e, w1))
+    (hd2 : isDynName name2 = false) (hc2 : Djc.Proofs.Plain.ctxFree ctx2 = true) (hext2 : isExtracting ctx2 = false)
+    (hpar2 : Djc.Proofs.Tree.parentOf (if only2 || env.isolated then isolatedCopy ctx2 else ctx2) = none)
+    (h2 : (renderCompTag env fuel2 name2 kwargs2 only2 dyn2 [] ctx2).run.run w1 = (.ok toks, w2)) :
+    (∀ k, alGet k w2.ctxCache = alGet k w1.ctxCache) ∧ (∀ k, alGet k w2.rendererCache = alGet k w1.rendererCache) ∧
+      (∀ k, alGet k w2.childAttrs = alGet k w1.childAttrs) ∧ Djc.Proofs.Tree.holeIds toks = [] := by
+  have hf := Djc.Proofs.TreeFail.tree_failure_frame env hlib fuel name kwargs only dyn ctx w w1 e hd hc hw h
+  have hw1 := hf.winv hw
+  obtain ⟨hb, hno⟩ := Djc.Proofs.Tree.tree_root_tag env hlib fuel2 name2 kwargs2 only2 dyn2 ctx2 w1 w2 toks hd2 hc2 hw1 hext2 hpar2 h2
+  exact ⟨fun k => hb.cc k (by simp), fun k => hb.rc k (by simp), hb.ca, hno⟩
+
+/-- instance (kernel-evaluated): the three-level page with a fault in the fourth callback raises the injected error and
+leaves entries — all under ids of that render, none in the provide registries -/
+example : Djc.Proofs.TreeFail.exFailSummary = true := by decide +kernel
 
 /-- The property at full strength for the model of the code: whatever callback raises, every
 registry of the world is as before the render.  OPEN; false on the unchanged tree. -/
